@@ -15,7 +15,11 @@ RULE = ("TLC enumerates scenario descriptors PER COMPONENT exhaustively (obstacl
         "of every role, signs, lights, incoming elements built with only their required arguments: gamma passes an "
         "optional argument only when the descriptor sets it) and the fields only protobuf carries (static-obstacle signal "
         "states, first occurrences, prediction shape).  distinct_nontrivial = distinct (descriptor, d).")
-ASSUMPTIONS = ["initial states are InitialState instances populating a subset of its six attributes (constructor type)",
+ASSUMPTIONS = ["ids: the pools use symbolic ids; Codec!Renumber materialises them with an id-order token (natural, lights_first, "
+               "interleaved, lanelets_high, obstacles_low, pp_smallest, reversed): every token for stop lines referring to signs AND "
+               "lights and for two-incoming intersections, in rotation over the other lanelet / sign / light / intersection "
+               "cases, at random in the mixed draws",
+               "initial states are InitialState instances populating a subset of its six attributes (constructor type)",
                "trajectory states have exact time steps t0, t0+1, ... (Trajectory documents contiguity)",
                "a traffic-sign element uses the enum class of the scenario's country (the format stores only the value)",
                "ids of one kind are listed in ascending order; id sets and enum sets are compared as sets",
